@@ -250,3 +250,21 @@ def run_topo(ctx):
     if c.get("upstream_packets", 0) < tot["cases"]:
         raise vf.MachineryError("C12 pipeline replay saw no upstream traffic (%s)" % c)
     return tot
+
+
+def replay_topo(ctx, path):
+    """Focused replay of one recorded violation (the recorded topology with all its variants).
+    Returns False when the file is not a C12 pipeline replay."""
+    with open(path) as f:
+        rec = json.load(f)
+    case = (rec.get("replay") or {}).get("case")
+    if not isinstance(case, dict) or "nodes" not in case:
+        return False
+    ctx.tlc(MOD, "MC_RW.tla", "MC_RW_n2.cfg", workers=4, timeout=600, heap="4g")   # the property statement the replay is judged by
+    inp = {"cases": [case], "workers": 1, "queryTimeoutMs": 3000, "netTimeoutMs": 300, "marginMs": 8000}
+    res = ctx.go_driver("./c12topo", "TestTopologies", inp, name="c12topo_replay", timeout=900)
+    ctx.take_driver_result(res, "[C12 topologies, replay] ")
+    ctx.note_case("replay:" + str(case.get("id")))
+    ctx.note_case("replay-file:" + path)
+    ctx.cov["replay"]["c12_topologies_replay"] = {"case": case.get("id"), "variant_runs": res["cases"], "counters": res.get("counters", {})}
+    return True
